@@ -21,7 +21,7 @@ import shutil
 
 from common import GUARD, REPO, WORK, log, run, sha, repo_tree_hash, hash_files
 
-PROPS = ("C04", "C05", "C06", "C10", "C11", "C12", "C13", "C14", "C17", "C19")
+PROPS = ("C04", "C05", "C06", "C10", "C11", "C12", "C13", "C14", "C16", "C17", "C19")
 
 LIB_PRELUDE = r"""#![allow(warnings)]
 pub use ::entrait::{entrait, entrait_export, Impl};
@@ -558,6 +558,12 @@ def cases_c19(rng, n, nostd=False):
         c = SCase("C19", ("nostd/" if nostd else "hostile/") + kind, lib=pre + lib, run=run, cfg=cfg)
         c.no_glob = True
         out.append(c)
+        if kind.startswith("macro_rules") and not nostd:
+            # the same programs decide C16's "forwards them positionally": parameter names that reach the macro with the hygiene of a
+            # macro_rules! body must be forwarded as the parameters they declare (span-level: invisible to the token-level tie)
+            c16 = SCase("C16", "hygiene/" + kind, lib=(pre + lib).replace('"C19"', '"C16"'), run=run, cfg=cfg)
+            c16.no_glob = True
+            out.append(c16)
     return out
 
 
